@@ -704,6 +704,18 @@ function evalBundle(js) {
   return new Function('return ' + js)()
 }
 
+// A child that normalises a model-bound property in a data observer (a slider clamping its value
+// to `max`): the observer's own write goes back to the host through the model listener, too.
+function clampObservers(c) {
+  if (!c.clamp) return undefined
+  const { prop, max } = c.clamp
+  return {
+    [`${prop}, ${max}`]: function (v, m) {
+      if (typeof v === 'number' && typeof m === 'number' && v > m) this.setData({ [prop]: m })
+    },
+  }
+}
+
 function createRoot(job, groupList, ctx, data, childState) {
   const cs = new ge.ComponentSpace()
   const cfg = job.config || {}
@@ -734,6 +746,7 @@ function createRoot(job, groupList, ctx, data, childState) {
       generics: c.generics,
       options,
       properties,
+      observers: clampObservers(c),
       // a child's own state (changed by `child_state` ops) is what new instances start with, in the
       // live world and in every reference creation alike
       data: c.root ? data : () => clone(childState && childState[c.is] !== undefined ? childState[c.is] : dec(c.data || {})),
@@ -772,7 +785,7 @@ function standaloneChildShadow(job, groupList, childIs, props, childState) {
       const template = { groupList, content: wrapContent(content, c.is, ctx) }
       if (cfg.updateMode) template.updateMode = cfg.updateMode
       const own = childState && childState[c.is] !== undefined ? childState[c.is] : dec(c.data || {})
-      const def = cs.defineComponent({ is: c.is, using: c.using || {}, options, properties, data: clone(own), methods: {}, template })
+      const def = cs.defineComponent({ is: c.is, using: c.using || {}, options, properties, observers: clampObservers(c), data: clone(own), methods: {}, template })
       if (c.is === childIs) target = def
     }
     if (!target) return null
@@ -1395,8 +1408,21 @@ function runWorld(job) {
         // (for a component: its property value after the component's own normalisation)
         if (entry && entry.path && entry.st === rootSt) {
           const got = getPath(curD(), entry.path)
-          const expected = l.kind === 'native' ? v : v === undefined ? null : v
-          if (!(Object.is(got, expected) || (isObj(got) && deepEq(got, expected)))) {
+          // (a child with a normalising observer holds the normalised value)
+          const clamps = l.kind !== 'native' && (job.components || []).some((c) => c.is === l.node.is && c.clamp)
+          const expected = l.kind === 'native' ? v : clamps ? l.node.data[l.name] : v === undefined ? null : v
+          // a clamping child bound to the same location normalises what another view wrote there
+          let normalisedBy = null
+          if ((job.components || []).some((c) => c.clamp)) {
+            for (const o of collectModelListeners(root)) {
+              if (o.kind === 'native' || o.node === l.node) continue
+              if (!(job.components || []).some((c) => c.is === o.node.is && c.clamp)) continue
+              const orec = ctx.modelPaths.get(o.node)
+              const oe = orec && orec[o.name]
+              if (oe && oe.path && oe.st === rootSt && enc(oe.path) === enc(entry.path) && Object.is(o.node.data[o.name], got)) normalisedBy = o.node
+            }
+          }
+          if (!normalisedBy && !(Object.is(got, expected) || (isObj(got) && deepEq(got, expected)))) {
             violation('C11', 'model_put_not_at_path', `writing ${enc(v)} through the model listener of <${l.node.is}> ${l.name} (path ${enc(entry.path)}) left ${enc(got)} at that path`)
           }
           bump(ctx, 'probe.c11.put_checked')
